@@ -1,6 +1,7 @@
 package integrationdiagram
 
 import (
+	"github.com/anz-bank/sysl/pkg/utils"
 	"regexp"
 
 	"github.com/anz-bank/sysl/pkg/cmdutils"
@@ -31,7 +32,9 @@ func GenerateIntegrations(intgenParams *cmdutils.CmdContextParamIntgen,
 	app := model.GetApps()[intgenParams.Project]
 	of := cmdutils.MakeFormatParser(intgenParams.Output)
 	// Iterate over each endpoint within the selected project
-	for epname, endpt := range app.GetEndpoints() {
+	// in name order: endpoints that expand to one output name overwrite each other
+	for _, epname := range utils.OrderedKeys(app.GetEndpoints()) {
+		endpt := app.GetEndpoints()[epname]
 		outputDir := of.FmtOutput(intgenParams.Project, epname, endpt.GetLongName(), endpt.GetAttrs())
 		if intgenParams.Filter != "" {
 			re := regexp.MustCompile(intgenParams.Filter)
